@@ -15,7 +15,7 @@ THEOREMS = ["Pypika.C13.field_no_alias", "Pypika.C13.arith_no_alias", "Pypika.C1
             "Pypika.C13.field_alias_once", "Pypika.C13.arith_alias_once", "Pypika.C13.neg_alias_once",
             "Pypika.C13.case_alias_once", "Pypika.C13.func_alias_once", "Pypika.C13.aliasPiece_text",
             "Pypika.C13.groupby_item", "Pypika.C13.ref_is_defined", "Pypika.C13.fetch_family_no_groupby_alias",
-            "Pypika.C13.groupby_alias_sticky",
+            "Pypika.C13.groupby_alias_sticky", "Pypika.C13.alias_family_groupby_alias", "Pypika.C13.groupby_alias_decided",
             # term-level builders (Builder.lean stepT, tied call by call through harness/trace.py)
             "Pypika.B.as_last_wins",
             "Pypika.B.select_terms_append", "Pypika.B.select_select", "Pypika.B.select_after_star_ignored"]
@@ -251,6 +251,11 @@ def examine_nested(case):
         res.skipped = str(ex)[:40]
     m = re.search(r"GROUP BY (.*?)\)", text)
     grouped_by_alias = bool(m and re.fullmatch(r"[\"`]?al[\"`]?", m.group(1).strip()))
+    if cls not in ("oracle", "mssql") and inner in ("oracle", "mssql") and m and not grouped_by_alias:
+        # the other direction: a dialect that groups by alias does so at every depth, whichever class built the sub-query
+        res.findings.append({"sig": {"kind": "groupby-expression-under-alias-dialect", "term": case["kind"]},
+                             "what": "GROUP BY repeats the expression inside a %s statement (sub-query built by %s) although the alias is selected "
+                                     "and %s groups by alias: %s" % (cls, inner, cls, text)})
     if cls in ("oracle", "mssql") and grouped_by_alias:
         res.findings.append({"sig": {"kind": "groupby-alias-under-fetch-family", "term": case["kind"]},
                              "what": "GROUP BY refers to an alias inside a %s statement (sub-query built by %s): %s" % (cls, inner, text)})
